@@ -360,6 +360,23 @@ func genOneChart(rng *rand.Rand, cs *chartSpec, name, prefix string, depth int, 
 	if depth == 0 {
 		nt = 2 + rng.Intn(4)
 	}
+	// file naming: plain t<n>.yaml, or numbered names as chart authors write them, including pairs
+	// that differ only in the zero padding of the number (step-1 / step-01) and numbers whose
+	// string order differs from their numeric order (step-2 / step-10). In numbered charts the first
+	// document of every file has the same kind (and all are hooks or none is), so the order in
+	// which helm visits the files is visible in the manifest / hook list.
+	numbered := rng.Intn(100) < 35
+	pairHook := rng.Intn(2) == 0
+	var numberedNames []string
+	if numbered {
+		stem := []string{"step", "job", "a"}[rng.Intn(3)]
+		n := 1 + rng.Intn(9)
+		pool := []string{fmt.Sprintf("%s-%d", stem, n), fmt.Sprintf("%s-%02d", stem, n), fmt.Sprintf("%s-%03d", stem, n), fmt.Sprintf("%s-%d", stem, n+1), fmt.Sprintf("%s-%d", stem, 10*n), fmt.Sprintf("%s-%d", stem, n+10)}
+		rest := pool[2:]
+		rng.Shuffle(len(rest), func(i, j int) { rest[i], rest[j] = rest[j], rest[i] })
+		numberedNames = pool
+		f.Constructs["numbered-file-names"] = true
+	}
 	for t := 0; t < nt; t++ {
 		var b strings.Builder
 		nd := 1 + rng.Intn(3)
@@ -368,10 +385,17 @@ func genOneChart(rng *rand.Rand, cs *chartSpec, name, prefix string, depth int, 
 				b.WriteString("---\n")
 			}
 			k := docKinds[rng.Intn(len(docKinds))]
+			forced := numbered && j == 0
+			if forced {
+				k = docKinds[0]
+			}
 			fmt.Fprintf(&b, "apiVersion: %s\nkind: %s\nmetadata:\n  name: {{ .Release.Name }}-%s-t%d-%d\n  labels:\n    {{- include \"%s.labels\" . | trim | nindent 4 }}\n", k.api, k.kind, name, t, j, name)
 			f.MapRanges++
-			if rng.Intn(5) == 0 {
+			if hook := rng.Intn(5) == 0; (hook && !forced) || (forced && pairHook) {
 				ev := hookEvents[rng.Intn(len(hookEvents))]
+				if forced {
+					ev = "pre-install"
+				}
 				if rng.Intn(3) == 0 {
 					ev += "," + hookEvents[rng.Intn(len(hookEvents))]
 				}
@@ -405,6 +429,9 @@ func genOneChart(rng *rand.Rand, cs *chartSpec, name, prefix string, depth int, 
 		p := fmt.Sprintf("templates/t%d.yaml", t)
 		if rng.Intn(4) == 0 {
 			p = fmt.Sprintf("templates/sub/t%d.yaml", t)
+		}
+		if numbered {
+			p = "templates/" + numberedNames[t%len(numberedNames)] + ".yaml"
 		}
 		out[prefix+p] = b.String()
 		f.TemplateFiles++
